@@ -39,6 +39,9 @@ func lookupIntrinsic(fn *ssa.Function) intrinsicFn {
 			}
 		}
 	}
+	if cryptoPackages[pkgPathOf(fn)] {
+		return genericCryptoStub
+	}
 	if noopPackages[pkgPathOf(fn)] {
 		return func(in *Interp, caller *frame, fn *ssa.Function, args []Value) Value { return in.zeroResult(fn) }
 	}
